@@ -39,6 +39,15 @@ CLAIMS = {
  "C14": dict(design="4/C14", text="TLC checks Homomorphic / ProofExact / VerifyDecryptExact / SharesExact: the proof equations are polynomial identities in the atoms (b, rho, ch) with Fiat-Shamir as a random oracle table; every single-component perturbation {add, negate, swap, zero} of (c1, c2, message_proof, blinder_proof, challenge) and verifier key; sums of <=MaxSum ciphertexts; t-of-n decryption. Replayed on the real library with all six addition forms, an independent merlin transcript verifier, and reference-made proofs.",
              note="plaintexts {1, r-1, 2}; sums <=3 (quick) / 4 (thorough); merlin used as a primitive with labels from the spec",
              tech="TLA+ model checked by TLC; replay of every ElGamal transition; independent transcript verifier"),
+ "C15": dict(design="4/C15", text="The Codec model enumerates 28 types x 3 codecs x variants x value classes; RoundTrip is a TLC invariant of the decoder micro-steps, and every such transition is replayed on the real library through all four container conversions, owned and borrowed encoders, determinism and the encoded length predicted by spec/Layout.tla; random values of every type are round-tripped and the class-deduplicated log validated by TLC.",
+             note="field layout in the spec is the documented format; value classes, not all values",
+             tech="TLA+ Codec/Layout model checked by TLC; replay of every (type, codec, variant, class) transition; TLC validation of a class-deduplicated round-trip trace"),
+ "C16": dict(design="4/C16", text="TLC checks OnlyValid / TruncRejected / ExactLength / NoZeroSecret on the decoder model for every field-level mutation class of every type and codec; each transition is replayed with byte strings constructed by an independent backend (off-subgroup, valid+torsion, no-point, non-canonical, flag errors), decoded values are fed to the consumers where the lazily validated share containers must fail; a fuzz-style trace of random / mutated inputs is judged by an independent point classifier and validated by TLC per (type, codec, class, outcome).",
+             note="serde accepts the zero scalar and byte imports reduce values >= r (documented scope notes, D10); mutation classes, not all byte strings; fuzz volume bounded",
+             tech="TLA+ Codec model checked by TLC; replay of every mutation transition with independently constructed invalid encodings; TLC validation of a class-deduplicated decoder trace"),
+ "C17": dict(design="4/C17", text="The decoder / consumer model has no Abort outcome (NoAbort, ZeroTestExact over all 256 byte-OR values); every Codec transition (all mutations, every truncation length, every consumer), the crafted-length-prefix / short-payload / timestamp abort sites of the protocol modules, and a fuzz trace are executed under catch_unwind on the plain release build and on a build with overflow checks and debug assertions; TLC validates the trace.",
+             note="non-termination would surface as a timeout (exit 2); dependency panics are observed not predicted; volume of random inputs bounded",
+             tech="TLA+ abort-site model checked by TLC; replay on release and checked builds under catch_unwind; TLC validation of decoder traces"),
 }
 
 def main():
